@@ -73,14 +73,23 @@ func RuleW1(keep fnFilter, floor int) Rule {
 				n++
 				key := name + "#" + p.Name()
 				reason, allowed := pol[name][p.Name()]
+				deepReason, deepAllowed := pol[name][p.Name()+"*"]
 				if allowed {
 					used[name+"#"+p.Name()] = true
+				}
+				if deepAllowed {
+					used[name+"#"+p.Name()+"*"] = true
 				}
 				switch {
 				case !s.W[i]:
 					c.OK("W1", key, fn.Pos(), "no write event on any object reachable from this parameter (may-write analysis, all paths)")
 				case allowed:
 					c.OK("W1", key, fn.Pos(), "written; allowed by policy: "+reason, st.describe(s.Causes["param:"+p.Name()]))
+				case deepAllowed && !s.WS[i]:
+					c.OK("W1", key, fn.Pos(), "only the objects it points to are written (not the slice/pointee itself); allowed by policy: "+deepReason, st.describe(s.Causes["param:"+p.Name()]))
+				case deepAllowed:
+					c.Bad("W1", key, firstPos(s.Causes["shallow:"+p.Name()], fn.Pos()),
+						fmt.Sprintf("%s may write the memory its parameter %q itself denotes (e.g. the elements of the caller's slice), while the policy only allows writing the objects those elements point to: %s", name, p.Name(), st.describe(s.Causes["shallow:"+p.Name()])))
 				default:
 					c.Bad("W1", key, firstPos(s.Causes["param:"+p.Name()], fn.Pos()),
 						fmt.Sprintf("%s may write memory reachable from its parameter %q, which the purity policy makes read-only: %s", name, p.Name(), st.describe(s.Causes["param:"+p.Name()])))
@@ -96,7 +105,7 @@ func RuleW1(keep fnFilter, floor int) Rule {
 						for _, fn := range st.tops {
 							if core.FnName(fn) == fnName {
 								for _, p := range fn.Params {
-									if p.Name() == pn {
+									if p.Name() == strings.TrimSuffix(pn, "*") {
 										found = true
 									}
 								}
